@@ -850,6 +850,10 @@ coap_oscore_decrypt_pdu(coap_session_t *session,
   coap_bin_const_t nonce;
   int pltxt_size = 0;
   uint8_t coap_request = COAP_PDU_IS_REQUEST(pdu);
+  /* What a response's own Partial IV did to rcp_ctx before it was verified */
+  uint64_t rsp_saved_last_seq = 0;
+  int rsp_last_seq_raised = 0;
+  int rsp_seq_validated = 0;
   coap_bin_const_t pdu_token;
   uint8_t *st_encrypt;
   size_t encrypt_len;
@@ -1259,10 +1263,12 @@ coap_oscore_decrypt_pdu(coap_session_t *session,
     } else {
       uint64_t last_seq;
 
-      if (rcp_ctx->initial_state == 0 &&
-          !oscore_validate_sender_seq(rcp_ctx, cose)) {
-        coap_log_warn("OSCORE: Replayed or old message\n");
-        goto error;
+      if (rcp_ctx->initial_state == 0) {
+        if (!oscore_validate_sender_seq(rcp_ctx, cose)) {
+          coap_log_warn("OSCORE: Replayed or old message\n");
+          goto error;
+        }
+        rsp_seq_validated = 1;
       }
       last_seq =
           coap_decode_var_bytes8(cose->partial_iv.s, cose->partial_iv.length);
@@ -1270,8 +1276,11 @@ coap_oscore_decrypt_pdu(coap_session_t *session,
         coap_log_warn("OSCORE Replay protection, SEQ larger than SEQ_MAX.\n");
         goto error;
       }
-      if (last_seq > rcp_ctx->last_seq)
+      if (last_seq > rcp_ctx->last_seq) {
+        rsp_saved_last_seq = rcp_ctx->last_seq;
+        rsp_last_seq_raised = 1;
         rcp_ctx->last_seq = last_seq;
+      }
       /*
        * Requires in COSE object as appropriate
        *   kid (set above)
@@ -1407,6 +1416,14 @@ coap_oscore_decrypt_pdu(coap_session_t *session,
       oscore_roll_back_seq(rcp_ctx);
       goto error_no_ack;
     } else {
+      /*
+       * Not authentic: the Partial IV it claimed must leave no trace, or a
+       * forged response could shut out every genuine one that follows.
+       */
+      if (rsp_seq_validated)
+        oscore_roll_back_seq(rcp_ctx);
+      else if (rsp_last_seq_raised)
+        rcp_ctx->last_seq = rsp_saved_last_seq;
       coap_handle_event_lkd(session->context,
                             COAP_EVENT_OSCORE_DECRYPTION_FAILURE,
                             session);
